@@ -191,8 +191,15 @@ func SHA384New() hash.Hash { return newHash("sha384", 48, 128) }
 //verif:intercept crypto/hmac.New
 func HMACNew(h func() hash.Hash, key []byte) hash.Hash {
 	inner := h().(*Hash)
-	k := make([]byte, len(key))
-	copy(k, key)
+	// RFC 2104 steps 1-3: K0 = key zero-padded to the block size (hashed first if longer),
+	// so keys that differ only in trailing zeros are the same HMAC key
+	k := make([]byte, inner.block)
+	if len(key) > inner.block {
+		inner.Write(key)
+		copy(k, inner.Sum(nil))
+	} else {
+		copy(k, key)
+	}
 	return &Hash{name: inner.name, size: inner.size, block: inner.block, key: k}
 }
 
@@ -521,4 +528,19 @@ func ShakeSum128(hash, data []byte) {
 func ShakeSum256(hash, data []byte) {
 	s := &Shake{alg: "256", msg: append([]byte{}, data...)}
 	s.Read(hash)
+}
+
+// ---------------------------------------------------------------- crypto/hkdf (standard library)
+
+// HKDFExtract models crypto/hkdf.Extract: PRK = HMAC-Hash(salt, IKM), a nil salt being
+// HashLen zeros (RFC 5869 §2.2).
+//
+//verif:intercept crypto/hkdf.Extract
+func HKDFExtract(h func() hash.Hash, secret, salt []byte) ([]byte, error) {
+	if salt == nil {
+		salt = make([]byte, h().Size())
+	}
+	m := HMACNew(h, salt)
+	m.Write(secret)
+	return m.Sum(nil), nil
 }
